@@ -1,6 +1,6 @@
 #!/bin/sh
 # usage: tools/save_r3.sh : copy every verified round-3 seed (/tmp/seed_<p>r3/<n>) into /verif/seeded/<p>-<n+2>
-MISSED="c25r3/2 c25r3/1 c31r3/1 c16r3/1 c14r3/1 c06r3/1 c06r3/2 c10r3/1 c04r3/2 c18r3/1 c18r3/2 c08r3/1 c12r3/2 c02r3/2 c03r3/1 c19r3/1 c19r3/2 c17r3/2 c28r3/2"
+MISSED="c07r3/2 c25r3/2 c25r3/1 c31r3/1 c16r3/1 c14r3/1 c06r3/1 c06r3/2 c10r3/1 c04r3/2 c18r3/1 c18r3/2 c08r3/1 c12r3/2 c02r3/2 c03r3/1 c19r3/1 c19r3/2 c17r3/2 c28r3/2"
 cd /verif
 for d in /tmp/seed_c??r3/[12]; do
   p=$(echo $d | sed 's#/tmp/seed_\(c..\)r3/.#\1#'); n=$(basename $d); id="$p-$((n+2))"
